@@ -12,7 +12,7 @@ LEVEL = "model_checking"
 MANIFEST = dict(
    engine="tlc-mirror", path="spec/Mirror",
    technique="TLA+ monitor + implementation model (code's masking arithmetic via Bitwise &) checked exhaustively by TLC; TLC-generated transition cover and random byte-level histories replayed into real mmap'd MirroredBuffers; recorded traces validated by TLC against the monitor",
-   text="Exhaustive TLC check of the index machine (MirrorImpl: constructor rounding, head/tail/used, the code's wrap arithmetic) composed with the property monitor (MirrorMon) for 1, 2, 3, 4, 5, 6, 8 pages (thorough: also 7, 12, 16 and finer units), exact and rounded-up requests, prefault on/off, amounts {0, 1, few, page, size-1, size, size+1} (thorough: all amounts 0..size+1), unbounded history length (finite state) at a scale of 4 units per page (exact homomorphic image of the byte machine for multiples of 1024 bytes). Every transition of those state graphs is replayed on a real MirroredBuffer (units mapped to bytes; a second pass perturbs the amounts off the unit grid), seeded random histories are generated from the same model at byte scale (page = 4096, amounts 0/1/3000/4096/size-1/size/size+1). The recorded traces - offset/length of every claim relative to the first claim, returns, FreeSpace/UsedSpace/Full/Size, mirror probe of every byte written through a claim in both copies, run-length projection of the ring contents (committed-unconsumed tokens must survive later claims), /proc/self/maps + backing file + descriptor census after Destroy - are validated by TLC against the monitor. Verdicts come only from recorded real-code traces.",
+   text="Exhaustive TLC check of the index machine (MirrorImpl: constructor rounding, head/tail/used, the code's wrap arithmetic) composed with the property monitor (MirrorMon) for 1, 2, 3, 4, 5, 6, 8 pages (thorough: also 7, 12, 16 and finer units), exact and rounded-up requests, prefault on/off, amounts {0, 1, few, page, size-1, size, size+1} (thorough: all amounts 0..size+1 up to 8 pages), unbounded history length (finite state) at a scale of 4 units per page (exact homomorphic image of the byte machine for multiples of 1024 bytes). Every transition of those state graphs is replayed on a real MirroredBuffer (units mapped to bytes; a second pass perturbs the amounts off the unit grid), seeded random histories are generated from the same model at byte scale (page = 4096, amounts 0/1/3000/4096/size-1/size/size+1). The recorded traces - offset/length of every claim relative to the first claim, returns, FreeSpace/UsedSpace/Full/Size, mirror probe of every byte written through a claim in both copies, run-length projection of the ring contents (committed-unconsumed tokens must survive later claims), /proc/self/maps + backing file + descriptor census after Destroy - are validated by TLC against the monitor. Unit-scale random walks with all amounts and a probe of the constructor's failure points (process brought to vm.max_map_count; a failed NewMirroredBuffer must leave no mapping or descriptor) are added. Apalache inductive-invariant checks of typed index machines are recorded as additional evidence only. Verdicts come only from recorded real-code traces.",
    note="Trusted: TLC, the Go replay driver (pointer arithmetic against the first claim, token writer, run-length projection, /proc parsing), JSON trace I/O. Token identity is modulo 251. Negative amounts are outside the quantifier (Claim(-1) panics) and are not generated. Sizes beyond 16 pages are not exercised.",
    design_ref="5/C11")
 
